@@ -411,7 +411,7 @@ def manifest():
             "thorough_cmd": "python3 vp.py check %s --tier thorough" % pid,
             "evidence_file": "/verif/evidence/%s.json" % pid,
             "replay_cmd_template": "python3 vp.py replay {path}",
-            "engine": "+".join((["verus"] if c.get("verus") else []) + (["kani"] if c.get("kani") else [])),
+            "engine": "+".join((["verus"] if c.get("verus") else []) + (["kani"] if c.get("kani") else []) + (["native-bounded"] if c.get("native") else [])),
             "level_claimed": {"category": c["level"], "text": c["level_text"], "design_ref": c["design_ref"]},
             "level_note": c["level_note"],
             "technique": c["technique"],
@@ -427,6 +427,9 @@ def manifest():
              "kind_free_text": "extractor + contract injector (python) feeding Verus/Z3 single-file verification of the real functions"},
             {"name": "kani", "path": "/verif/kani", "serves_properties": [p for p in props if p in P.PROPS and P.PROPS[p].get("kani")],
              "kind_free_text": "generated Kani proof harnesses over /repo/cfdp-core (CBMC); loop-free full-width harnesses are complete, length-parameterised ones bounded"},
+            {"name": "native-bounded", "path": "/verif/replay", "serves_properties": [p for p in props if p in P.PROPS and P.PROPS[p].get("native")],
+             "kind_free_text": "bounded stand-ins only (never counted as proof): Rust programs compiled against /repo's crates (path dependency, overflow checks on) that "
+                               "enumerate a stated input space on the real functions; also the source of concrete failing inputs for replay"},
         ],
         "checks": checks,
         "notes": "contract-based deductive verification; see DESIGN.md. exit 2 = undecided (never an alarm).",
